@@ -41,13 +41,14 @@ class C17(Check):
 
     def bounds(self, tier):
         return dict(abs_curv='n = 1..%d fixes, with a user feature present, computed twice; also on a track extracted from a longer one that already carries a ds feature (first value not 0)' % (3 if tier == 'quick' else 5),
-                    speed='n = 2..%d fixes (every pattern of equal / increasing instants is a path), computed twice' % (3 if tier == 'quick' else 4))
+                    speed='n = 2..%d fixes (every pattern of equal / increasing instants is a path), computed twice, also after computeAbsCurv on the same track' % (3 if tier == 'quick' else 4))
 
     def jobs(self, tier, seed):
         q = tier == 'quick'
         js = [dict(kind='abscurv', n=n) for n in range(1, (3 if q else 5) + 1)]
         js += [dict(kind='abscurv', n=n, stale=True) for n in range(1, (3 if q else 4) + 1)]
         js += [dict(kind='speed', n=n) for n in range(2, (3 if q else 4) + 1)]
+        js += [dict(kind='speed', n=3, after_abscurv=True)]       # the order in which the two features are computed must not matter
         js.sort(key=lambda j: -j['n'])
         return js
 
@@ -148,6 +149,8 @@ class C17(Check):
                     return
                 frame('second computeAbsCurv')
             else:
+                if job.get('after_abscurv'):
+                    cin.computeAbsCurv(tr)
                 sp = tr.estimate_speed()
                 ctx.reach()
                 if len(sp) != n:
@@ -169,7 +172,7 @@ class C17(Check):
                     if not ctx.prove(z3.And(dt != 0, zreal(sp[i]) * dt == r),
                                      'speed equals the planimetric distance between the neighbours divided by the elapsed time (one-sided at the ends)'):
                         return
-                if sorted(tr.getListAnalyticalFeatures()) != ['f', 'speed']:
+                if sorted(tr.getListAnalyticalFeatures()) != (['abs_curv', 'f', 'speed'] if job.get('after_abscurv') else ['f', 'speed']):
                     ctx.fail('after estimate_speed the track lists other features than the user feature and speed')
                     return
                 if not frame('estimate_speed'):
@@ -216,6 +219,8 @@ class C17(Check):
                 if sorted(tr.getListAnalyticalFeatures()) != ['abs_curv', 'f']:
                     return dict(violation='features after the second computeAbsCurv: %r' % tr.getListAnalyticalFeatures(), outputs=out)
             else:
+                if job.get('after_abscurv'):
+                    cin.computeAbsCurv(tr)
                 sp = tr.estimate_speed()
                 out = dict(speed=[float(v) for v in sp])
                 tk = [secs[i] + mss[i] / 1000.0 for i in range(n)]
@@ -226,7 +231,7 @@ class C17(Check):
                         return dict(violation='speed[%d] = %r with elapsed time %r' % (i, sp[i], dt), outputs=out)
                     if dt != 0 and abs(sp[i] - d2(a, b) / dt) > tol(sp[i]):
                         return dict(violation='speed[%d] = %r, neighbours are %r apart in %r s' % (i, sp[i], d2(a, b), dt), outputs=out)
-                if sorted(tr.getListAnalyticalFeatures()) != ['f', 'speed']:
+                if sorted(tr.getListAnalyticalFeatures()) != (['abs_curv', 'f', 'speed'] if job.get('after_abscurv') else ['f', 'speed']):
                     return dict(violation='features after estimate_speed: %r' % tr.getListAnalyticalFeatures(), outputs=out)
             if [tr.getX(), tr.getY(), tr.getZ()] != [xs, ys, zs] or [tr.getObsAnalyticalFeature('f', i) for i in range(n)] != feat:
                 return dict(violation='positions or another feature changed', outputs=out)
